@@ -74,6 +74,20 @@ theorem Parses.manBytes (c : CodecCfg) (b : Bytes) : Parses (manBytes c) (append
     rw [h5, hd2]
     simp [appendBytes, Int.natCast_add, Int.add_assoc]
 
+theorem Parses.ifPayload {α : Type} (c : CodecCfg) {A B : P α} {enc : Bytes} {a : α} (hne : enc ≠ [])
+    (h : Parses A enc a) : Parses (ifPayload c A B) enc a := by
+  unfold NoKV.Codec.ifPayload
+  split
+  · exact Parses.ifMore hne h
+  · exact Parses.ifWithin h
+
+theorem Safe.ifPayload {α : Type} (c : CodecCfg) {d : Bytes} {I : St → Prop} {k : Nat} {A B : P α}
+    (hA : Safe d I k A) (hB : Safe d I k B) : Safe d I k (ifPayload c A B) := by
+  unfold NoKV.Codec.ifPayload
+  split
+  · exact Safe.ifMore hA hB
+  · exact Safe.ifWithin hA hB
+
 theorem Parses.chkPos : Parses chkPos [] () := by
   intro d n al rest hl hn hd
   refine ⟨al, ?_⟩
